@@ -472,4 +472,17 @@ theorem convertResults_trailing_error : ∀ (init : List Val) (outs : List Ty) (
         simp only [List.cons_append] at this ⊢
         simp [convertResults, this]
 
+/-! ### nested results -/
+
+theorem demandedSeq_toList (t : Ty) : ∀ (xs : Vals),
+    (demandedSeq t xs).toList = xs.toList.map (demandedResult t)
+  | .nil => by simp [demandedSeq, Vals.toList]
+  | .cons v vs => by simp [demandedSeq, Vals.toList, demandedSeq_toList t vs]
+
+theorem numericOf_seq (t' t : Ty) (xs : Vals) : numericOf t' (.seq t xs) = none := by
+  cases t' <;> simp [numericOf]
+
+theorem numericOf_gomap (t' kt vt : Ty) (kvs : Vals) : numericOf t' (.gomap kt vt kvs) = none := by
+  cases t' <;> simp [numericOf]
+
 end Ecal.Bridge
